@@ -696,7 +696,17 @@ def _build(spec, variant=None):
     # expectation sets
     for mo in spec['moments']:
         sel = scen_selector(fset, spec, mo['event'], rng)
-        sel.exptset(S.build_rsome(mo['prims'], rso.E(z), rng))
+        cons = list(S.build_rsome(mo['prims'], rso.E(z), rng))
+        split = variant.get('split_moments', rng.random() < 0.3)
+        if split and len(cons) >= 2:
+            # the same event declared in two calls (same selector object, or the event selected
+            # a second time): the calls accumulate
+            k_ = int(rng.integers(1, len(cons)))
+            sel.exptset(cons[:k_])
+            sel2 = sel if rng.random() < 0.5 else scen_selector(fset, spec, mo['event'], rng)
+            sel2.exptset(*cons[k_:])
+        else:
+            sel.exptset(cons)
     fset2 = None
     if spec.get('amb2'):
         a2 = spec['amb2']
